@@ -7,9 +7,9 @@
 //
 //	(a) every message length 0..4*rate+1 (+10000, 65537) through ComputeHash, Write+SumHash,
 //	    Reset+Write+SumHash, dirty-object ComputeHash, and the one-shot helpers
-//	(b) every 2-split of every length <= 2*rate+2 (fresh object and re-used object), 3-splits
+//	(b) every 2-split of every length <= 3*rate+2 (thorough 4*rate+2) (fresh object and re-used object), 3-splits
 //	    over boundary cut points
-//	(c) the history tree to depth 4 (thorough 5) over a 10-letter alphabet, pruned by the model
+//	(c) the history tree to depth 5 (thorough 6) over a 10-letter alphabet, pruned by the model
 //	(d) KMAC128 key length x customizer length x output size, rejections
 //
 // The oracle only demands what the C13 statement defines:
@@ -422,11 +422,11 @@ func main() {
 		newTarget("kmac128", kKey[:32], kCust[:9], 32),
 		newTarget("kmac128", kKey[:16], nil, 200), // empty customizer, output longer than one squeeze block
 	}
-	depth := 4
-	splitMul := 2
+	depth := 5
+	splitMul := 3
 	if run.Thorough() {
-		depth = 5
-		splitMul = 3
+		depth = 6
+		splitMul = 4
 	}
 
 	run.Set("rule", "Every case is a history of Write/SumHash/Reset/ComputeHash calls executed on ONE real hasher object next to a reference stream model (bytes written since the last Reset; digests from refkeccak/refsha2, byte equality). "+
